@@ -4,7 +4,7 @@
    have the same names in the same order and, unless (name, v) is in a recorded defect class of fs,
    g v = Ok (spec (view v)) where view v are the bytes within the length.
    Only statements, each closed by [exact]; proofs in Proofs/Views*.v. *)
-From PV Require Import Model.ViewsShow Spec.Views Proofs.ViewsBase Proofs.Views Proofs.Views2 Proofs.Views3 Proofs.Views4 Proofs.ViewsLen.
+From PV Require Import Model.ViewsShow Spec.Views Proofs.ViewsBase Proofs.Views5 Proofs.Views Proofs.Views2 Proofs.Views3 Proofs.Views4 Proofs.ViewsLen.
 Open Scope N_scope.
 
 Theorem C02_ARP_getters_spec : forall v, wf v -> bytes_ok (arr v) ->
@@ -32,10 +32,26 @@ Theorem C02_Pause_getters_spec : forall v, wf v -> bytes_ok (arr v) ->
 Proof. exact Pause_spec. Qed.
 Print Assumptions C02_Pause_getters_spec.
 
-Theorem C02_HBH_getters_spec : forall v, wf v -> bytes_ok (arr v) ->
-  HBH_IsValid v = Ok true -> getters_spec [] HBH_getters HBH_specs v.
+(* ParseHopByHopExtensions against the RFC 8200 4.2 TLV tiling of the options area: equal outside the two
+   recorded classes (type masked with 0x1f; overrunning option accepted), each refuted by witness below *)
+Theorem C02_HBH_getters_spec_partial : forall v, wf v -> bytes_ok (arr v) ->
+  HBH_IsValid v = Ok true -> getters_spec HBH_findings_C02 HBH_getters HBH_specs v.
 Proof. exact HBH_spec. Qed.
-Print Assumptions C02_HBH_getters_spec.
+Print Assumptions C02_HBH_getters_spec_partial.
+Theorem C02_HBH_parse_masked_refuted :
+  wf w_hbh_mask /\ bytes_ok (arr w_hbh_mask) /\ HBH_IsValid w_hbh_mask = Ok true /\
+  HBH_Parse w_hbh_mask = Ok VE /\ lookup "ParseHopByHopExtensions" HBH_specs <> None /\
+  (forall s, lookup "ParseHopByHopExtensions" HBH_specs = Some (Some s) -> s (view w_hbh_mask) = VU) /\
+  key_of HBH_findings_C02 "ParseHopByHopExtensions" w_hbh_mask = Some "view-hbh-option-type-masked"%string.
+Proof. exact HBH_parse_masked_refuted. Qed.
+Print Assumptions C02_HBH_parse_masked_refuted.
+Theorem C02_HBH_parse_overrun_refuted :
+  wf w_hbh_overrun /\ bytes_ok (arr w_hbh_overrun) /\ HBH_IsValid w_hbh_overrun = Ok true /\
+  HBH_Parse w_hbh_overrun = Ok VU /\
+  (forall s, lookup "ParseHopByHopExtensions" HBH_specs = Some (Some s) -> s (view w_hbh_overrun) = VE) /\
+  key_of HBH_findings_C02 "ParseHopByHopExtensions" w_hbh_overrun = Some "view-hbh-option-overrun-accepted"%string.
+Proof. exact HBH_parse_overrun_refuted. Qed.
+Print Assumptions C02_HBH_parse_overrun_refuted.
 
 Theorem C02_ICMP_getters_spec : forall v, wf v -> bytes_ok (arr v) ->
   ICMP_IsValid v = Ok true -> getters_spec [] ICMP_getters ICMP_specs v.
@@ -155,3 +171,14 @@ Example C02_R4_nonvacuous : wf ex_r4 /\ bytes_ok (arr ex_r4) /\ R4_IsValid ex_r4
   R4_Addrs ex_r4 = Ok (VL [VR 8 4; VR 24 4]).
 Proof. exact R4_valid_ex. Qed.
 Print Assumptions C02_R4_nonvacuous.
+
+(* ---- round 2: the recorded Ether class is the whole defect for C02 as well: inside the class the getter is
+   Payload and its value differs from the spec (outside it C02_Ether_getters_spec_partial gives equality) ---- *)
+Theorem C02_Ether_known_exact : forall v, wf v -> bytes_ok (arr v) -> Ether_IsValid v = Ok true ->
+  forall name, known_of Ether_findings name v = true ->
+  name = "Payload"%string /\ ~ getter_ok v Ether_Payload /\ Ether_Payload v <> Ok (Ether_Payload_spec (view v)).
+Proof. exact Ether_known_exact_C02. Qed.
+Print Assumptions C02_Ether_known_exact.
+Theorem C02_Ether_Payload_spec_is : lookup "Payload" Ether_specs = Some (Some Ether_Payload_spec).
+Proof. exact Ether_Payload_spec_is. Qed.
+Print Assumptions C02_Ether_Payload_spec_is.
